@@ -48,6 +48,14 @@ Theorem C13_bidirectional_padding_inert : forall C1 C2 X Y (cf : C1 -> X -> C1 *
 Proof. exact @bidirectional_padding_inert. Qed.
 Print Assumptions C13_bidirectional_padding_inert.
 
+(* non-vacuity: two padded steps after three valid ones, different cells in the two directions *)
+Example C13_bidirectional_example :
+  let cf := int_cell 2 1 0 in let cb := int_cell 1 3 1 in
+  let xs := [1; 2; 3; 100; 200]%Z in
+  firstn 3 (snd (bidirectional cf cb (Some 3) 0%Z 0%Z xs)) = [(1, 19); (4, 17); (11, 12)]%Z /\
+  fst (bidirectional cf cb (Some 3) 0%Z 0%Z xs) = (Some 11%Z, Some 18%Z).
+Proof. vm_compute. split; reflexivity. Qed.
+
 (* decoding with a cache: for every attention function, sequence and cache size, feeding the positions one at a time
    gives row t of whole-sequence attention under the causal mask, and the cache index ends at the number of steps *)
 Theorem C13_decode_equals_causal : forall KV Q Y (att : Q -> list KV -> Y) (qs : list Q) (kvs : list KV) done rest,
